@@ -5,6 +5,7 @@ import (
 	"errors"
 	"fmt"
 	"io"
+	"strings"
 	"testing"
 	"testing/iotest"
 
@@ -148,6 +149,28 @@ func c03Eval(b []byte, mode string) (class string, nontrivial bool, err error) {
 	derr := evid.Guard("dagcbor.Decode", func() error { return decode(nb, c03Reader(b)) })
 	if derr != nil && len(derr.Error()) >= 5 && derr.Error()[:5] == "PANIC" {
 		return "", false, fmt.Errorf("decoder panicked on %s (%s): %v", clip(b), mode, derr)
+	}
+	// the same input into an assembler of the caller's that refuses nothing itself (not even a repeated key):
+	// what the decoder promises to reject, it has to reject on its own
+	rcd := nodes.NewRecorder()
+	rcderr := evid.Guard("dagcbor.Decode", func() error { return decode(rcd.Assembler(), c03Reader(b)) })
+	if rcderr != nil && strings.HasPrefix(rcderr.Error(), "PANIC") {
+		return "", false, fmt.Errorf("decoder panicked on %s (%s) feeding a recording assembler: %v", clip(b), mode, rcderr)
+	}
+	if rerr != nil && rcderr == nil {
+		return "", false, fmt.Errorf("decoder (%s) feeding an assembler that refuses nothing accepted %s as %s, but it is not a well-formed DAG-CBOR item (%v)", mode, clip(b), rcd.V.Short(200), rerr)
+	}
+	if rerr == nil && !dup {
+		if rcderr != nil {
+			return "", false, fmt.Errorf("decoder (%s) feeding a recording assembler rejected well-formed DAG-CBOR %s: %v", mode, clip(b), rcderr)
+		}
+		g, w := rcd.V, want
+		if mode == "relaxed" {
+			g, w = g.NormNaN(), w.NormNaN()
+		}
+		if !val.Equal(g, w, val.Ordered) {
+			return "", false, fmt.Errorf("decoder (%s) told a recording assembler %s for %s, but the bytes denote %s", mode, g.Short(300), clip(b), w.Short(300))
+		}
 	}
 	if rerr != nil {
 		var rj refcbor.Reject
